@@ -141,6 +141,52 @@ func addGitlinks(h *gen.History, r interface{ Intn(int) int }) {
 	}
 }
 
+// addDirSymlinks gives every commit one of four shapes at the paths "cur" and "zz/cur2": absent, a tracked
+// symlink whose relative target is a directory that exists in that commit's tree ("cur -> a", "zz/cur2 -> ../a"),
+// a regular file, or a directory with a file in it. Commit pairs therefore remove, add and replace symlinks that
+// resolve to real directories of the worktree.
+func addDirSymlinks(h *gen.History, r interface{ Intn(int) int }) {
+	for i := range h.Commits {
+		t := h.Commits[i].Tree
+		var top []string
+		for _, d := range twin.Dirs(t) {
+			if !strings.Contains(d, "/") {
+				top = append(top, d)
+			}
+		}
+		for _, p := range []string{"cur", "zz/cur2"} {
+			switch r.Intn(4) {
+			case 1:
+				if len(top) == 0 {
+					continue
+				}
+				target := top[r.Intn(len(top))]
+				if strings.Contains(p, "/") {
+					target = "../" + target
+				}
+				t[p] = gen.File{Mode: "120000", Content: []byte(target)}
+			case 2:
+				t[p] = gen.File{Mode: "100644", Content: []byte("plain file at " + p + "\n")}
+			case 3:
+				t[p+"/inside"] = gen.File{Mode: "100644", Content: []byte("file below " + p + "\n")}
+			}
+		}
+	}
+}
+
+// dirSymlinkChange reports whether a tracked symlink of tree a that points at a directory existing in a is absent or
+// something else in tree b.
+func dirSymlinkChange(a, b gen.Tree) bool {
+	for _, p := range []string{"cur", "zz/cur2"} {
+		if f, ok := a[p]; ok && f.Mode == "120000" {
+			if g, ok := b[p]; !ok || g.Mode != "120000" {
+				return true
+			}
+		}
+	}
+	return false
+}
+
 type startState struct {
 	dir    string
 	commit int
@@ -165,6 +211,7 @@ func run(c *vf.Ctx) {
 		if gitlinks {
 			addGitlinks(h, r)
 		}
+		addDirSymlinks(h, r)
 		// tags: one lightweight, one annotated
 		h.Tags["v-light"] = r.Intn(len(h.Commits))
 		h.ATags["v-annot"] = r.Intn(len(h.Commits))
@@ -364,6 +411,10 @@ func run(c *vf.Ctx) {
 				continue
 			}
 			c.Count("ops_succeeded", 1)
+			if dirSymlinkChange(cur, target) {
+				c.Count("ops_removing_or_replacing_a_symlink_to_an_existing_directory", 1)
+				c.Seen("op_kinds_on_dir_symlink", rec.Op)
+			}
 			c.Eval(shape, nontrivial)
 			for _, o := range rec.Pre {
 				c.Seen("pre_kinds", o.Kind)
@@ -418,6 +469,7 @@ func run(c *vf.Ctx) {
 	c.Floor("operation kinds", c.SeenCount("op_kinds"), len(opKinds))
 	c.Floor("pre-state mutation kinds", c.SeenCount("pre_kinds"), 9)
 	c.Floor("distinct path transitions between start and target", c.SeenCount("path_transitions"), c.N(12, 20))
+	c.Floor("operations removing/replacing a tracked symlink that points at an existing directory", c.Counter("ops_removing_or_replacing_a_symlink_to_an_existing_directory"), c.N(8, 150))
 	c.Floor("untracked files whose survival was checked", c.Counter("untracked_survival_checked"), c.N(30, 600))
 	c.Assume("an operation go-git fails with an error is not a 'successful forced checkout' and is only counted (gogit_errors_where_git_succeeded), e.g. gitlink entries without initialised submodule")
 	c.Assume("untracked paths that collide with a path of the target commit (same name, directory/file conflict) cannot survive and are not compared; pre-existing empty directories are not tracked content and are not compared")
